@@ -19,6 +19,7 @@ ASSUME = [
 
 
 RECOMPUTE_BIN = [None]
+HEAVY = {"bigcrash": 3}
 # monitors-only probes: the model comparison is not meaningful (tamperfull: the pinned x/mod reader
 # accepts a tile the model's verifying reader refuses; storm: the schedule of concurrent submitters
 # is not recorded; sharedissuer: two submitters of one new issuer reach the pool in either order, which
@@ -35,6 +36,8 @@ def run_harness(hexe, seed, n, scenario, out):
         args += ["-scenario=crashenum", "-enumbase=" + scenario.split(":")[1]]
         args[2] = "-n=30"
     elif scenario:
+        if scenario.split("@")[0] in HEAVY:
+            args[2] = "-n=%d" % HEAVY[scenario.split("@")[0]]   # histories with 200+ entries each
         if scenario.endswith("@real"):
             # the same scenario with every storage/lock operation ALSO performed on a real LocalBackend
             # directory and a real SQLite lock database (one connection per instance)
